@@ -11,9 +11,10 @@ EXPLANATION = (
     "exactly one new commit iff the state changed, parent = previous head, its tree lists exactly the live "
     "members with the served bytes, earlier commits untouched, no dangling object; tree store: working-tree "
     "files = index = HEAD tree and no index.lock left behind.")
-OUTSIDE = ["`git fsck` / `git status` of the real tools and dulwich's on-disk encoding: cannot be encoded (zlib, SHA-1, "
-           "struct) and cannot be exercised in this sandbox (dulwich 1.2 Repo has no do_commit); the claim is the "
-           "model-level statement"]
+OUTSIDE = ["dulwich's on-disk encoding (zlib, SHA-1, struct) cannot be encoded symbolically: the symbolic harnesses make "
+           "the model-level statement; `real_git` complements them on REAL repositories judged by the real `git fsck "
+           "--strict` / `git status` / `git rev-list` (through a sandbox shim for dulwich 1.2's missing Repo.do_commit, "
+           "see xv/real_e2e.py)"]
 ASSUMPTIONS = ["A1, A2 and the body-token conventions of C01",
                "do_commit = read head, write commit object, compare-and-set ref (as in dulwich's source)"]
 
@@ -193,6 +194,112 @@ def h_prop_step(c0: bool, ci: int, pi: int, vi: int) -> bool:
     return run(body_prop_step, c0, ci, pi, vi)
 
 
+# ------------------------------------------------------------------ real repositories, judged by the real git tools
+RG_TOK = [b"", b"xa", b"ya", b"xb", b"!a", b"x-"]
+RG_REQS = [("PUT", "a.ics"), ("PUT", "n.ics"), ("DELETE", "a.ics"), ("DELETE", "n.ics"), ("POST", ""), ("GET", "a.ics"),
+           ("PUT", "t.txt"), ("PP-name", "Home"), ("PP-name", None), ("PP-color", "#00ff00"), ("PP-color", None)]
+
+
+def body_real_git(i0, r1, k1):
+    """Scripts of three requests (first chosen by the solver, the other two looped inside over PUT / DELETE / POST /
+    GET / plain-file PUT / PROPPATCH set and remove) through the real WSGI entry point onto a REAL on-disk git
+    collection, which the REAL git command line then inspects after every request: `git fsck --strict` finds
+    nothing, `git status` is clean (working tree == index == HEAD), the history grew by exactly one commit - whose
+    only parent is the previous head - iff the request changed a member or a property, and not at all otherwise."""
+    from xv.core import picks, untraced
+    from xv.oracles import storespec as SP
+    c0, req1, tok1 = picks((i0, r1, k1), (RG_TOK, RG_REQS, RG_TOK[1:]))
+    with untraced():
+        import json
+        import os
+        import subprocess
+        import xv
+        CALP = "/user/calendars/cal"
+        S0 = {n: b for n, b in (("a.ics", c0), ("b.ics", b"xb")) if len(b) > 0}
+        if not SP.invariant(S0) or (c0[:1] == b"!"):
+            return (True, "pre-invalid")
+
+        def mk(req, tok):
+            kind, arg = req
+            if kind.startswith("PP-"):
+                return {"m": "PROPPATCH", "p": CALP + "/", "prop": "displayname" if kind == "PP-name" else "color", "b": arg}
+            if kind == "POST":
+                return {"m": "POST", "p": CALP + "/", "b": tok.decode("latin-1"), "ct": "text/calendar"}
+            ct = "text/calendar" if arg.endswith(".ics") else "application/octet-stream"
+            return {"m": kind, "p": CALP + "/" + arg, "b": tok.decode("latin-1") if kind == "PUT" else "", "ct": ct if kind == "PUT" else None}
+
+        def spec_step(S, P, req, tok):
+            """-> (expected status class, S', P', changed?)"""
+            kind, arg = req
+            if kind.startswith("PP-"):
+                key = "displayname" if kind == "PP-name" else "color"
+                P2 = dict(P)
+                if arg is None:
+                    P2.pop(key, None)
+                else:
+                    P2[key] = arg
+                return "2xx", S, P2, P2 != P
+            if kind == "GET":
+                return ("2xx" if arg in S else "404"), S, P, False
+            if kind == "DELETE":
+                o, S2 = SP.delete(S, arg)
+                return ("2xx" if o == "ok" else "404"), S2, P, o == "ok"
+            name = arg if kind == "PUT" else "\x00new.ics"
+            o, S2 = SP.put(S, name, tok)
+            if o != "ok":
+                return "412", S, P, False
+            return "2xx", S2, P, S2 != S
+
+        scripts, expects = [], []
+        for req2 in RG_REQS:
+            for req3 in (("PUT", "n.ics"), ("DELETE", "a.ics"), ("PP-name", "Home"), ("PP-name", None), ("PP-color", None)):
+                for tok2 in ((b"xa", b"xc") if req2[0] in ("PUT", "POST") else (b"",)):
+                    script, exp = [], []
+                    S, P = dict(S0), {}
+                    for (rq, tk) in ((req1, tok1), (req2, tok2), (req3, b"xc")):
+                        st, S, P, changed = spec_step(S, P, rq, tk)
+                        if rq[0] == "POST" and st == "2xx":
+                            S = dict(S)
+                            S["p%d.ics" % len(S)] = S.pop("\x00new.ics")
+                        script.append(mk(rq, tk))
+                        exp.append((st, changed))
+                    scripts.append(script)
+                    expects.append(exp)
+        job = {"cal": {n: b.decode("latin-1") for n, b in S0.items()}, "scripts": scripts}
+        p = subprocess.run(["/venv/bin/python", os.path.join(os.path.dirname(__file__), "..", "real_c09.py")],
+                           input=json.dumps(job), capture_output=True, text=True, cwd=xv.REPO,
+                           env={"PATH": os.environ.get("PATH", ""), "PYTHONPATH": xv.REPO}, timeout=900)
+        if p.returncode != 0:
+            raise RuntimeError("real git driver failed: " + p.stderr[-600:])
+        for script, exp, recs in zip(scripts, expects, json.loads(p.stdout)):
+            for k in range(1, len(recs)):
+                prev, cur = recs[k - 1], recs[k]
+                st, changed = exp[k - 1]
+                why = None
+                if cur["status"] != st:
+                    why = "status %s, expected %s" % (cur["status"], st)
+                elif cur["fsck"] != [0]:
+                    why = "git fsck: %r" % (cur["fsck"],)
+                elif cur["dirty"]:
+                    why = "git status not clean: %r" % (cur["dirty"],)
+                elif changed and not (cur["commits"] == prev["commits"] + 1 and cur["parents"] == [prev["head"]]):
+                    why = "a change must add exactly one commit on top of the old head"
+                elif not changed and cur["head"] != prev["head"]:
+                    why = "a request that changed nothing moved HEAD"
+                if why:
+                    ctx.LAST_EXC = "%s at request %d of %r: %r -> %r" % (why, k, script, prev, cur)
+                    return (False, "real-git")
+        return (True, "first:" + req1[0])
+
+
+def h_real_git(i0: int, r1: int, k1: int) -> bool:
+    """
+    pre: 0 <= i0 < len(RG_TOK) and 0 <= r1 < len(RG_REQS) and 0 <= k1 < len(RG_TOK) - 1
+    post: _
+    """
+    return run(body_real_git, i0, r1, k1)
+
+
 HARNESSES = [
     Harness("commit_step", h_commit_step, body_commit_step,
             classes=[("put:commit", ("bare", 0, 0)), ("put:nocommit", ("tree", 0, 0)), ("delete:commit", ("tree", 1, 0)),
@@ -214,6 +321,16 @@ HARNESSES = [
                      "xandikos.store.config.FileBasedCollectionMetadata.set_order", "xandikos.store.git.GitStore.config",
                      "xandikos.store.git.RepoCollectionMetadata._write_config", "xandikos.store.git.BareGitStore._import_one",
                      "xandikos.store.git.TreeGitStore._import_one", "xandikos.store.git.GitStore.set_displayname"]),
+    Harness("real_git", h_real_git, body_real_git, classes=[("first:PUT", None), ("first:PP-name", None)],
+            budget={"quick": 150, "thorough": 900}, per_path_timeout={"quick": 150, "thorough": 150},
+            twin_budget={"quick": 90, "thorough": 150},
+            describe="three-request scripts (PUT / DELETE / POST / GET / plain-file PUT / PROPPATCH set and remove) through "
+                     "the real WSGI entry point onto a REAL on-disk git collection, inspected after every request by the REAL "
+                     "git command line: fsck --strict clean, status clean, exactly one commit (parent = old head) iff a "
+                     "member or property changed; first request chosen by the solver, the rest looped (xv/real_c09.py)",
+            encodes=["xandikos.store.git.TreeGitStore._import_one", "xandikos.store.git.TreeGitStore.delete_one",
+                     "xandikos.store.git.GitStore._commit_tree", "xandikos.store.git.locked_index",
+                     "xandikos.store.config.FileBasedCollectionMetadata._save", "xandikos.web.XandikosApp.handle_wsgi_request"]),
     Harness("web_reads", h_web_reads, body_web_reads, classes=[("untyped:0", "tree"), ("typed:1", "bare")],
             parts={"quick": ["tree", "bare"]}, budget={"quick": 75, "thorough": 300},
             describe="PROPFIND / GET through the real web layer on a typed or untyped collection add no commit; the next "
